@@ -10,6 +10,7 @@ RULE = (
     "kinds x heavyness x {x on node, x off node}; every parton row of the (0,0,0,0) tensor is compared with the PDG "
     "weight times x*p_j(x) (node: w*x*delta_jk). Distinct = (kind, heavyness, process, projectile, scheme, nf, x-class); "
     "non-trivial = at least one non-zero expected row was compared in that cell."
+    " One case in six requests PTO 1..3 and judges the LO order of that run (weights chosen in order-dependent branches); CKM moduli are given as the usual string, a flat list or a 3x3 list."
 )
 ASSUMPTIONS = [
     "eko InterpolatorDispatcher/BasisFunction.evaluate_x is trusted for p_j(x) off nodes",
